@@ -1,7 +1,7 @@
 (* C06 — Bandwidth quota is conserved: sharing moves it, usage only consumes it.
-   Statements only; proofs are in Proofs/Quota.v. *)
+   Statements only; proofs are in Proofs/Quota.v and Proofs/QuotaSum.v. *)
 From Hub Require Import Base.Prelude Base.Arith Model.Types Model.Keeper Model.Handlers Model.Hooks Model.Step.
-From Hub Require Import Proofs.Tactics Proofs.Frames Proofs.KeysInv Proofs.Lifecycle Proofs.Quota.
+From Hub Require Import Proofs.Tactics Proofs.Frames Proofs.KeysInv Proofs.Lifecycle Proofs.Quota Proofs.InvDefs Proofs.QuotaSum.
 
 (* For every allocation 0 <= used <= granted, at every point of every history from genesis
    (after every transaction and every block hook). *)
@@ -68,16 +68,21 @@ Theorem C06_exhausted_cannot_start : forall s from id nd s' sb,
   exists al, allocs s !! (id, ta_bytes from) = Some al /\ al_used al < al_granted al.
 Proof. exact exhausted_cannot_start. Qed.
 
-(* Not yet lifted to a single run-level statement "sum of grants = bought for every live
-   subscription of every reachable state": the per-operation theorems above cover creation,
-   sharing and settlement; removal deletes all allocations of the removed subscription.
-   The implementation-side monitor checks the run-level statement after every operation. *)
-Definition C06_sum_statement : Prop := forall g ops s' id sb,
+(* In every state reachable from any genesis by any history, the granted bytes of the allocations of
+   every live subscription add up to exactly what was bought: 10^9 bytes per purchased gigabyte of a
+   pay-as-you-go subscription (nothing for an hourly one), 10^9 bytes per gigabyte of the plan for a
+   plan subscription -- sharing moves quota between holders, settlement and expiry of OTHER
+   subscriptions never touch it, nothing creates or destroys it. *)
+Theorem C06_granted_sum_is_bought : forall g ops s' id sb,
   run (init g) ops = RunOk s' -> subs s' !! id = Some sb ->
   match sb_kind sb with
   | KNode _ gb _ _ => gsum s' id = GB * gb
   | KPlan pid _ => exists p, get_plan s' pid = Some p /\ gsum s' id = GB * pl_gb p
   end.
+Proof. exact granted_sum_is_bought. Qed.
+
+Theorem C06_sum_invariant_inductive : forall s o s', kinv s -> idx_sub s -> sum_inv s -> step s o = OOk s' -> sum_inv s'.
+Proof. exact sum_step. Qed.
 
 Print Assumptions C06_used_within_granted.
 Print Assumptions C06_invariant_inductive.
@@ -88,3 +93,5 @@ Print Assumptions C06_node_purchase_grants.
 Print Assumptions C06_plan_purchase_grants.
 Print Assumptions C06_allocate_effect.
 Print Assumptions C06_exhausted_cannot_start.
+Print Assumptions C06_granted_sum_is_bought.
+Print Assumptions C06_sum_invariant_inductive.
